@@ -1,3 +1,221 @@
-(* placeholder, being written *)
-From Coq Require Import ZArith List Bool Lia.
-From NV Require Import Base.Result Base.Bytes Model.TagAct Model.TagReadAny Model.TagReadAnyB.
+(* C08, activation: every response variant yields parameters or a clean failure.
+   Proofs about Model/TagAct.v. *)
+From Coq Require Import ZArith List Bool Lia ZifyBool.
+From NV Require Import Base.Result Base.Bytes Base.Sweep Model.IsoDep Model.TagAct.
+Import ListNotations.
+Open Scope Z_scope.
+Ltac Zify.zify_post_hook ::= Z.to_euclidean_division_equations.
+
+Lemma land15 x : Z.land x 15 = x mod 16.
+Proof. change 15 with (Z.ones 4). rewrite Z.land_ones by lia. reflexivity. Qed.
+Lemma shiftr4 x : Z.shiftr x 4 = x / 16.
+Proof. rewrite Z.shiftr_div_pow2 by lia. reflexivity. Qed.
+Lemma shiftr5 x : Z.shiftr x 5 = x / 32.
+Proof. rewrite Z.shiftr_div_pow2 by lia. reflexivity. Qed.
+
+Lemma idx_ok l i : 0 <= i < len l -> exists x, idx l i = Ok x /\ In x l.
+Proof.
+  intros H. unfold idx. replace (i <? 0) with false by lia.
+  destruct (nth_error l (Z.to_nat i)) eqn:E.
+  - eexists; split; [reflexivity|]. eapply nth_error_In; eauto.
+  - apply nth_error_None in E. unfold len in H. lia.
+Qed.
+
+(* ------------------------------------------------------------ dispatch *)
+Theorem dispatch_total sens sel : len sens = 2 -> len sel = 1 -> exists k, tag_dispatch_a sens sel = Ok k.
+Proof.
+  intros Hs Hl. unfold tag_dispatch_a.
+  destruct (idx_ok sens 1) as (s1 & -> & _); [lia|]. cbn [bind].
+  destruct (Z.land s1 15 =? 12); [eauto|].
+  destruct (idx_ok sel 0) as (r0 & -> & _); [lia|]. cbn [bind].
+  destruct (_ =? 0); [eauto|]. destruct (_ =? 1); eauto.
+Qed.
+
+(* ------------------------------------------------------------ answer to select *)
+Lemma nth_opt_in l i x : nth_opt l i = Some x -> In x l.
+Proof. unfold nth_opt. destruct (i <? 0); [discriminate|]. apply nth_error_In. Qed.
+
+Theorem ats_total ats :
+  (exists fsci fwi, ats_fsci_fwi ats = Ok (fsci, fwi) /\ (bytes_ok ats -> 0 <= fsci <= 15 /\ 0 <= fwi <= 15))
+  \/ ats_fsci_fwi ats = Err ProtocolError.
+Proof.
+  destruct ats as [|tl [|t0 r]]; [right; reflexivity | left | ].
+  - exists 2, 4. split; [reflexivity | lia].
+  - cbn [ats_fsci_fwi].
+    assert (H0 : bytes_ok (tl :: t0 :: r) -> 0 <= Z.land t0 15 <= 15).
+    { intro Hb. rewrite land15. lia. }
+    destruct (Z.land t0 32 =? 0).
+    + left. eexists _, 4. split; [reflexivity|]. intro Hb. split; [auto | lia].
+    + destruct (nth_opt _ _) as [tb|] eqn:E; [left | right; reflexivity].
+      eexists _, _. split; [reflexivity|]. intro Hb. split; [auto|].
+      apply nth_opt_in in E. unfold bytes_ok in Hb. rewrite Forall_forall in Hb. specialize (Hb _ E).
+      unfold byte_ok in Hb. rewrite shiftr4. lia.
+Qed.
+
+(* every standard-conformant answer to select - any subset of TA(1), TB(1), TC(1), any historical
+   bytes - is read as ISO/IEC 14443-4 defines it: FSCI from T0, FWI from TB(1) or the default 4 *)
+Theorem ats_build_parse fsci ta tb tc hist : 0 <= fsci <= 15 ->
+  ats_fsci_fwi (ats_build fsci ta tb tc hist) = Ok (fsci, match tb with Some b => Z.shiftr b 4 | None => 4 end).
+Proof.
+  intro H.
+  assert (C : fsci = 0 \/ fsci = 1 \/ fsci = 2 \/ fsci = 3 \/ fsci = 4 \/ fsci = 5 \/ fsci = 6 \/ fsci = 7 \/ fsci = 8 \/
+              fsci = 9 \/ fsci = 10 \/ fsci = 11 \/ fsci = 12 \/ fsci = 13 \/ fsci = 14 \/ fsci = 15) by lia.
+  repeat (destruct C as [-> | C]); [..| subst fsci];
+    destruct ta as [a|], tb as [b|], tc as [c|]; reflexivity.
+Qed.
+
+Lemma fsc_of_in fsci : In (fsc_of fsci) [16; 24; 32; 40; 48; 64; 96; 128; 256].
+Proof.
+  unfold fsc_of. destruct (Z.to_nat fsci) as [|[|[|[|[|[|[|[|[|n]]]]]]]]]; cbn; auto 12.
+  destruct n; cbn; auto 12.
+Qed.
+Lemma n_retry_range fwti : 0 <= fwti -> 0 <= n_retry_of fwti <= 5.
+Proof.
+  intro H. unfold n_retry_of. assert (0 < 2 ^ fwti) by (apply Z.pow_pos_nonneg; lia).
+  assert (Hq : 0 <= 13560000 / (4096 * 2 ^ fwti)) by (apply Z.div_pos; lia).
+  remember (13560000 / (4096 * 2 ^ fwti)) as q. clear Heqq. lia.
+Qed.
+
+(* the parameters handed to the ISO-DEP layer are sane whatever FSCI / FWI the tag announces
+   (RFU values included): FSC is a table value or the device limit, MIU = FSC - 3, FWI <= 14 *)
+Theorem t4_params_sane fsci fwi max_send max_recv : 0 <= fwi ->
+  let p := t4_params fsci fwi max_send max_recv in
+  (In (a_fsc p) [16; 24; 32; 40; 48; 64; 96; 128; 256] \/ a_fsc p = max_send) /\
+  a_fsc p <= max_send /\ a_miu p = a_fsc p - 3 /\ 0 <= a_fwti p <= 14 /\ 0 <= a_retry p <= 5 /\
+  (a_cmd_tail p = 7 \/ a_cmd_tail p = 8).
+Proof.
+  intro Hw. unfold t4_params. cbn [a_fsc a_miu a_fwti a_retry a_cmd_tail].
+  set (f := fsc_of (if fsci >? 8 then 8 else fsci)).
+  assert (Hf : In f [16; 24; 32; 40; 48; 64; 96; 128; 256]) by apply fsc_of_in.
+  set (w := if fwi >? 14 then 4 else fwi). assert (Hw' : 0 <= w <= 14) by (unfold w; destruct (Z.gtb_spec fwi 14); lia).
+  split; [destruct (f >? max_send); auto|]. split; [destruct (Z.gtb_spec f max_send); lia|].
+  split; [reflexivity|]. split; [exact Hw'|]. split; [apply n_retry_range; lia|].
+  destruct (max_recv <? 256); auto.
+Qed.
+
+Theorem t4a_activate_sane rats max_send max_recv p : t4a_activate rats max_send max_recv = Some p ->
+  (forall d, rats = ARx d -> bytes_ok d) ->
+  a_fsc p <= max_send /\ a_miu p = a_fsc p - 3 /\ 0 <= a_fwti p <= 14 /\ 0 <= a_retry p <= 5.
+Proof.
+  unfold t4a_activate. destruct rats as [ats| | |]; try discriminate. intros H Hb.
+  destruct (ats_total ats) as [(f & w & E & R) | E]; rewrite E in H; [|discriminate].
+  injection H as <-. destruct (R (Hb _ eq_refl)) as [_ Hw].
+  pose proof (t4_params_sane f w max_send max_recv ltac:(lia)) as (_ & ? & ? & ? & ? & _). auto.
+Qed.
+
+(* the code as pinned: TA(1) and TB(1) assumed present *)
+Lemma ats_legacy_crash :
+  t4a_activate_legacy (ARx [2; 0]) 256 256 = Crash IndexErr /\
+  t4a_activate_legacy (ARx [3; 32; 129]) 256 256 = Crash IndexErr /\
+  t4a_activate_legacy (ARx [1]) 256 256 = Crash IndexErr /\
+  (* and, without crash, the wrong byte: T0 = 60h announces TB(1) = A1h (FWI 10) and TC(1) = 02h, no TA(1) *)
+  (exists p, t4a_activate_legacy (ARx [4; 96; 161; 2]) 256 256 = Ok (Some p) /\ a_fwti p = 0) /\
+  (exists p, t4a_activate (ARx [4; 96; 161; 2]) 256 256 = Some p /\ a_fwti p = 10).
+Proof. repeat split; try reflexivity; eexists; split; reflexivity. Qed.
+
+(* ------------------------------------------------------------ SENSB_RES / ATTRIB *)
+Theorem sensb_total sensb attrib max_send max_recv :
+  (len sensb < 12 /\ t4b_activate sensb attrib max_send max_recv = None) \/
+  (12 <= len sensb /\ exists po, t4b_activate sensb attrib max_send max_recv = Some (attrib_cmd sensb max_recv, po) /\
+     len (attrib_cmd sensb max_recv) = 9 /\
+     ((exists d, attrib = ARx d) <-> po <> None) /\
+     (forall p, po = Some p -> bytes_ok sensb ->
+        a_fsc p <= max_send /\ a_miu p = a_fsc p - 3 /\ 0 <= a_fwti p <= 14 /\ 0 <= a_retry p <= 5)).
+Proof.
+  unfold t4b_activate. destruct (len sensb <? 12) eqn:E; [left; split; [lia | reflexivity] | right].
+  split; [lia|]. eexists. split; [reflexivity|].
+  split.
+  { unfold attrib_cmd. rewrite len_cons, len_app. unfold slice. change (len [0; (if max_recv <? 256 then 7 else 8); 1; 0]) with 4.
+    unfold len at 1. rewrite firstn_length, skipn_length. unfold len in E. lia. }
+  split.
+  { destruct attrib; split; intro H; try discriminate; try (destruct H; discriminate); eauto; congruence. }
+  intros p Hp Hb. destruct attrib; try discriminate. injection Hp as <-.
+  assert (Hn : forall i, 0 <= nth i sensb 0 < 256).
+  { intro i. destruct (nth_in_or_default i sensb 0) as [Hi | ->]; [|lia].
+    unfold bytes_ok in Hb. rewrite Forall_forall in Hb. apply Hb, Hi. }
+  pose proof (t4_params_sane (Z.shiftr (nth 10 sensb 0) 4) (Z.shiftr (nth 11 sensb 0) 4) max_send max_recv) as T.
+  rewrite !shiftr4 in *. specialize (Hn 11%nat). destruct T as (_ & ? & ? & ? & ? & _); [lia | auto].
+Qed.
+Lemma sensb_legacy_crash : t4b_activate_legacy [80; 48; 112; 42; 28; 0; 0; 0; 0; 17] (ARx [0]) 256 256 = Crash IndexErr.
+Proof. reflexivity. Qed.
+
+(* ------------------------------------------------------------ RID *)
+Theorem rid_total rid :
+  let '(c, uid) := t1_activate rid in
+  uid = slice rid 2 6 /\ len uid <= 4 /\
+  (c = Topaz <-> slice rid 0 2 = [17; 72]) /\ (c = Topaz512 <-> slice rid 0 2 = [18; 76]).
+Proof.
+  unfold t1_activate.
+  assert (B : forall a b, beq_list a b = true <-> a = b).
+  { induction a as [|x a IH]; destruct b as [|y b]; cbn; try (split; congruence).
+    rewrite andb_true_iff, Z.eqb_eq, IH. split; [intros [-> ->]; reflexivity | intro H; inversion H; auto]. }
+  split; [reflexivity|]. split.
+  { unfold slice, len. rewrite firstn_length. cbn. lia. }
+  destruct (beq_list (slice rid 0 2) [17; 72]) eqn:E1.
+  - apply B in E1. rewrite E1. split; split; intro H; try reflexivity; discriminate.
+  - destruct (beq_list (slice rid 0 2) [18; 76]) eqn:E2.
+    + apply B in E2. rewrite E2. split; split; intro H; try reflexivity; discriminate.
+    + split; split; intro H; try discriminate; apply B in H; congruence.
+Qed.
+
+(* ------------------------------------------------------------ GET_VERSION / Ultralight-C probing *)
+(* whatever the tag answers (or not) and whether or not it is found again: a class or None after at most
+   two commands and three sense() calls *)
+Lemma tl_len {A} (l : list A) : (length (tl l) <= length l <= S (length (tl l)))%nat.
+Proof. destruct l; cbn; lia. Qed.
+Lemma nxp_version_uses xs ss : let '(_, xs', ss') := nxp_version xs ss in
+  (length xs - length xs' <= 1 /\ length ss - length ss' <= 1 /\ length xs' <= length xs /\ length ss' <= length ss)%nat.
+Proof.
+  unfold nxp_version. pose proof (tl_len xs). pose proof (tl_len ss).
+  destruct (hd_x xs); [destruct (version_lookup _ _); [|destruct (beq_list _ _)] | | |]; lia.
+Qed.
+Theorem version_total sdd0 xs ss : let '(_, xs', ss') := t2_activate sdd0 xs ss in
+  (length xs - length xs' <= 2 /\ length ss - length ss' <= 3)%nat.
+Proof.
+  unfold t2_activate. destruct (sdd0 =? 4); [|lia].
+  assert (N : let '(_, xs', ss') := nxp_activate xs ss in
+              (length xs - length xs' <= 2 /\ length ss - length ss' <= 2 /\ length ss' <= length ss)%nat).
+  { unfold nxp_activate. pose proof (tl_len xs). pose proof (tl_len ss).
+    pose proof (nxp_version_uses (tl xs) (tl ss)) as V. destruct (nxp_version (tl xs) (tl ss)) as [[? xs1] ss1].
+    destruct (hd_x xs); [destruct (negb _); [lia|]; destruct (match d with 175 :: _ => true | _ => false end) | destruct (negb _) | |]; lia. }
+  destruct (nxp_activate xs ss) as [[[c|] xs1] ss1]; [lia|]. pose proof (tl_len ss1). lia.
+Qed.
+(* a known GET_VERSION answer selects the product class; a silent tag that is still there is a plain Ultralight;
+   a tag that has left is None *)
+Theorem version_known v c a : version_lookup version_map v = Some c -> (forall r, a <> ARx (175 :: r)) -> a <> ATxErr -> a <> AProto ->
+  fst (fst (t2_activate 4 [a; ARx v] [true])) = Some c.
+Proof.
+  intros H Ha H1 H2. unfold t2_activate, nxp_activate. cbn [Z.eqb Pos.eqb hd_x hd_s tl negb].
+  destruct a as [d| | |]; try congruence.
+  - destruct d as [|b d]; [unfold nxp_version; cbn [hd_x]; rewrite H; reflexivity|].
+    destruct (Z.eq_dec b 175) as [->|]; [exfalso; eapply Ha; reflexivity|].
+    assert (E : match b with 175 => true | _ => false end = false).
+    { destruct b as [|p|p]; try reflexivity. repeat (destruct p as [p|p|]; try reflexivity). congruence. }
+    rewrite E. unfold nxp_version; cbn [hd_x]; rewrite H; reflexivity.
+  - unfold nxp_version; cbn [hd_x]; rewrite H; reflexivity.
+Qed.
+Lemma version_gone xs : fst (fst (t2_activate 4 xs [])) = None.
+Proof.
+  unfold t2_activate, nxp_activate, nxp_version. cbn [Z.eqb Pos.eqb hd_s negb tl].
+  destruct (hd_x xs); cbn [hd_s tl]; try reflexivity.
+Qed.
+
+(* ------------------------------------------------------------ SENSF_RES *)
+Theorem sensf_total sensf : 17 <= len sensf ->
+  t3_activate sensf = Ok None \/
+  exists t, t3_activate sensf = Ok (Some t) /\ len (t3_idm t) = 8 /\ len (t3_pmm t) = 8 /\
+            (len sensf < 19 -> t3_sys t = 65535) /\ (bytes_ok sensf -> 0 <= t3_sys t <= 65535).
+Proof.
+  intro H. unfold t3_activate. destruct (beq_list _ _); [left; reflexivity | right].
+  destruct (idx_ok sensf 10) as (ic & -> & _); [lia|]. cbn [bind]. eexists. split; [reflexivity|].
+  cbn [t3_idm t3_pmm t3_sys]. unfold slice, len in *. rewrite !firstn_length, !skipn_length.
+  split; [cbn; lia|]. split; [cbn; lia|]. split.
+  - intro. replace (19 <=? Z.of_nat (length sensf)) with false by lia. reflexivity.
+  - intro Hb. assert (Hn : forall i, 0 <= nth i sensf 0 < 256).
+    { intro i. destruct (nth_in_or_default i sensf 0) as [Hi | ->]; [|lia].
+      unfold bytes_ok in Hb. rewrite Forall_forall in Hb. apply Hb, Hi. }
+    pose proof (Hn 17%nat). pose proof (Hn 18%nat). destruct (19 <=? _); lia.
+Qed.
+Lemma sensf_legacy_crash :
+  t3_activate_legacy [1; 1; 2; 3; 4; 5; 6; 7; 8; 255; 255; 255; 255; 255; 255; 255; 255; 18] = Crash StructErr.
+Proof. reflexivity. Qed.
